@@ -413,13 +413,15 @@ def run(tier, seed):
                                    depth=250, seed=seed, limit=3000 if thorough else 400, timeout=600)
     log("[%s] %d schedules generated by TLC after %.0fs" % (PID, len(scheds), __import__("time").time() - o.t0))
     env = {"VERIF_REPS": "16" if thorough else "8"}
+    # racing goroutines: more executions per schedule, so that a rare interleaving is seen again on re-execution
+    cenv = {"VERIF_REPS": "48" if thorough else "32"}
     ctl = control_schedules()
     vlib.conformance(o, FAMILY, TRACE, TCFG, "c07", ctl, tag="control", env=env)
     vlib.conformance(o, FAMILY, TRACE, TCFG, "c07", [from_tlc(s) for s in scheds], tag="tlcgen", env=env)
     vlib.conformance(o, FAMILY, TRACE, TCFG, "c07", random_schedules(seed, 2500 if thorough else 300, thorough, False),
                      tag="random", env=env)
     vlib.conformance(o, FAMILY, TRACE, TCFG, "c07", random_schedules(seed, 1500 if thorough else 120, thorough, True),
-                     tag="conc", env=env, chunk=100)
+                     tag="conc", env=cenv, chunk=100)
     tr = vlib.split_traces(vlib.read_ndjson(vlib.workdir(PID) + "/trace_control.ndjson"))
     vlib.binding_selftest(o, FAMILY, TRACE, TCFG, tr, mutators())
     return vlib.finish(o, "model_checking", RULE,
@@ -431,7 +433,7 @@ def run(tier, seed):
                         "(the repository's own test expects a second trigger after Trim)",
                         "whether StoreInternal still calls its subscribers when an entry of the batch was refused is left open (the property is silent)",
                         "Go map iteration order of a batch is not controlled: multi-validator and concurrent schedules are executed "
-                        + env["VERIF_REPS"] + " times and every distinct trace is validated"])
+                        + env["VERIF_REPS"] + " times (concurrent ones " + cenv["VERIF_REPS"] + " times) and every distinct trace is validated"])
 
 
 def replay(path):
